@@ -4,7 +4,10 @@
 EXTENDS ServeLoop, Json, SequencesExt
 
 CONSTANTS Tier,   \* "quick" | "thorough"
-          Which   \* "c07" | "c08"
+          Which,  \* "c07" | "c08"
+          Seed,   \* VERIF_SEED: shifts the rotation of the derived dimensions against the exhaustive ones
+          Part,   \* which slice of the vectors this run emits: 1..NParts (slices are emitted side by side)
+          NParts
 
 D(i, div, mod) == ((i - 1) \div div) % mod
 
@@ -12,54 +15,83 @@ D(i, div, mod) == ((i - 1) \div div) % mod
 (* C07 *)
 Types7 == <<"get", "set", "result", "error", "", "bogus">>
 Ids7 == <<"none", "", "a", "a&<'\">b">>
-Froms7 == <<"none", "own", "peer">>
+Froms7 == <<"none", "own", "peer", "ownfull", "domain">>
+Tos7 == <<"full", "none", "bare">>
+ENS7 == <<"own", "own", "other">>
 Pays7 == <<"none", "child", "childtext", "iqchild">>
 Reads7 == <<"none", "one", "all", "over">>
 WSeq7 == <<"none", "reply", "errreply", "otherid", "get", "set", "kth", "first", "nested",
            "notype", "bogustype", "foreign">>
 Rets7 == <<"ok", "err">>
 ModeSeq7 == <<"plain", "muxreg", "muxunreg">>
-NSs == <<"client", "server">>
+(* the kinds of session: initiated client and server streams, the WebSocket framing,  *)
+(* received client and server streams, a client stream made by the library's own     *)
+(* negotiator that ends with a resource binding                                      *)
+Sess7 == << Sess("c2s", "custom", "same", FALSE), Sess("s2s", "custom", "same", FALSE), Sess("ws", "lib", "same", FALSE),
+            Sess("rc2s", "custom", "other", FALSE), Sess("rs2s", "custom", "other", FALSE), Sess("c2s", "lib", "same", TRUE) >>
+ASSUME \A i \in 1..Len(Sess7) : ValidSess(Sess7[i])
 
 (* every vector is followed by a sentinel request: it must still be answered unless   *)
 (* the stream was terminated by a stream error                                        *)
-Sentinel == [e |-> El7("iq", "get", "zz", "peer", "child"), p |-> Prog7("all", "reply", "ok")]
+Sentinel == [e |-> El7("iq", "get", "zz", "peer", "full", "own", "child"), p |-> Prog7("all", "reply", "ok")]
 
-Vec7(e, p, mode, ns) ==
-  [e |-> e, p |-> p, mode |-> mode, ns |-> ns, writes |-> Writes(p.w, e),
-   sentinel |-> Writes(Sentinel.p.w, Sentinel.e),
+(* The reply rule does not concern how the stream ends: on the TCP framing the peer   *)
+(* sends its closing tag after the sentinel, on the WebSocket framing (whose closing  *)
+(* element is outside this property) the transport just ends.                         *)
+Vec7(e, p, mode, s) ==
+  [e |-> e, p |-> p, mode |-> mode, sess |-> s, local |-> Local(s), was |-> Was(s),
+   ens |-> ElemNS(s.kind, e), decl |-> Declares(s.kind, e), hdrdiffers |-> HeaderDiffers(s.kind, e),
+   end |-> IF Framing(s.kind) = "ws" THEN "eof" ELSE "tag",
+   writes |-> Writes(p.w, e), sentinel |-> Writes(Sentinel.p.w, Sentinel.e),
    acc |-> SetToSeq(C07_RepliesSeq(<<[e |-> e, p |-> p], Sentinel>>, mode))]
 
-(* quick: every (type, id, writes, return, mode) of an iq, each with twelve derived      *)
-(* combinations of (from, payload, read, namespace)                                   *)
+(* quick: every (type, id, writes, return, mode) of an iq, each with K7 derived       *)
+(* combinations of (session, from, to, namespace, payload, read): for every base the  *)
+(* 30 (session, from) pairs once, the other dimensions rotating against them          *)
 NBase7 == 6 * 4 * 12 * 2 * 3
-V7Quick == [i \in 1..(NBase7 * 12) |->
+K7 == 30
+N7Quick == NBase7 * K7
+V7QuickAt(i) ==
    LET t == D(i, 1, 6)  id == D(i, 6, 4)  w == D(i, 24, 12)  r == D(i, 288, 2)  m == D(i, 576, 3)
-       j == D(i, NBase7, 12)
-       c == t + id + w + r + m
-   IN Vec7(El7("iq", Types7[t + 1], Ids7[id + 1], Froms7[((c + j) % 3) + 1], Pays7[((c \div 3 + j) % 4) + 1]),
+       j == D(i, NBase7, K7)
+       c == t + id + w + r + m + Seed
+   IN Vec7(El7("iq", Types7[t + 1], Ids7[id + 1], Froms7[((j + c \div 6) % 5) + 1], Tos7[((j \div 3 + c) % 3) + 1],
+               ENS7[((j \div 6 + c) % 3) + 1], Pays7[((c \div 3 + j) % 4) + 1]),
            Prog7(Reads7[((c + 2 * j + j \div 3) % 4) + 1], WSeq7[w + 1], Rets7[r + 1]),
-           ModeSeq7[m + 1], NSs[(j % 2) + 1])]
-V7Full == [i \in 1..(6 * 4 * 3 * 4 * 4 * 12 * 2 * 3 * 2) |->
-   Vec7(El7("iq", Types7[D(i, 1, 6) + 1], Ids7[D(i, 6, 4) + 1], Froms7[D(i, 24, 3) + 1], Pays7[D(i, 72, 4) + 1]),
-        Prog7(Reads7[D(i, 288, 4) + 1], WSeq7[D(i, 1152, 12) + 1], Rets7[D(i, 13824, 2) + 1]),
-        ModeSeq7[D(i, 27648, 3) + 1], NSs[D(i, 82944, 2) + 1])]
+           ModeSeq7[m + 1], Sess7[((j + c) % 6) + 1])
+(* thorough: the full product of the element and program dimensions, each with 15     *)
+(* derived (session, from, to, namespace) combinations                                *)
+NFull7 == 6 * 4 * 4 * 4 * 12 * 2 * 3
+N7Full == NFull7 * 15
+V7FullAt(i) ==
+   LET j == D(i, NFull7, 15)
+       c == D(i, 1, 6) + D(i, 6, 4) + D(i, 24, 4) + D(i, 96, 4) + D(i, 384, 12) + D(i, 4608, 2) + D(i, 9216, 3) + Seed
+   IN Vec7(El7("iq", Types7[D(i, 1, 6) + 1], Ids7[D(i, 6, 4) + 1], Froms7[((j + c \div 6) % 5) + 1], Tos7[((j \div 3 + c) % 3) + 1],
+               ENS7[((j \div 6 + c) % 3) + 1], Pays7[D(i, 24, 4) + 1]),
+           Prog7(Reads7[D(i, 96, 4) + 1], WSeq7[D(i, 384, 12) + 1], Rets7[D(i, 4608, 2) + 1]),
+           ModeSeq7[D(i, 9216, 3) + 1], Sess7[((j + c) % 6) + 1])
 (* other stanzas and foreign elements never trigger an automatic reply *)
 Kinds7 == << <<"msg", "chat">>, <<"pres", "">>, <<"other", "">>, <<"msg", "error">> >>
-V7Other == [i \in 1..(4 * 2 * 12 * 2 * 3 * 2) |->
-   Vec7(El7(Kinds7[D(i, 1, 4) + 1][1], Kinds7[D(i, 1, 4) + 1][2], IF D(i, 4, 2) = 0 THEN "none" ELSE "a", "peer", "child"),
+V7Other == [i \in 1..(4 * 2 * 12 * 2 * 3 * 6) |->
+   LET k == Kinds7[D(i, 1, 4) + 1] IN
+   Vec7(El7(k[1], k[2], IF D(i, 4, 2) = 0 THEN "none" ELSE "a", Froms7[(i % 5) + 1], Tos7[(i % 3) + 1],
+            IF k[1] # "other" /\ i % 7 = 0 THEN "other" ELSE "own", "child"),
         Prog7(Reads7[((i % 4)) + 1], WSeq7[D(i, 8, 12) + 1], Rets7[D(i, 96, 2) + 1]),
-        ModeSeq7[D(i, 192, 3) + 1], NSs[D(i, 576, 2) + 1])]
+        ModeSeq7[D(i, 192, 3) + 1], Sess7[((D(i, 576, 6) + Seed) % 6) + 1])]
+
+N7 == IF Tier = "quick" THEN N7Quick ELSE N7Full
+V7At(i) == IF Tier = "quick" THEN V7QuickAt(i) ELSE V7FullAt(i)
+SliceLo(n) == ((Part - 1) * n) \div NParts + 1
+SliceHi(n) == (Part * n) \div NParts
 
 ASSUME Which = "c07" =>
-  /\ ndJsonSerialize("c07_vectors_1.ndjson", IF Tier = "quick" THEN V7Quick ELSE V7Full)
-  /\ ndJsonSerialize("c07_vectors_2.ndjson", V7Other)
-  /\ PrintT(<<"EMITTED", Len(IF Tier = "quick" THEN V7Quick ELSE V7Full), Len(V7Other)>>)
+  LET lo == SliceLo(N7)  hi == SliceHi(N7)
+  IN /\ ndJsonSerialize("c07_vectors_" \o ToString(Part) \o ".ndjson", [j \in 1..(hi - lo + 1) |-> V7At(lo + j - 1)])
+     /\ (Part = 1 => ndJsonSerialize("c07_vectors_99.ndjson", V7Other))
+     /\ PrintT(<<"EMITTED", hi - lo + 1, IF Part = 1 THEN Len(V7Other) ELSE 0>>)
 
 ---------------------------------------------------------------------------
 (* C08 *)
-CONSTANTS Part    \* 0 = everything, 1..2 = one half of the C08 vectors (run in parallel)
-
 S(n) == <<"s", n>>
 E(n) == <<"e", n>>
 T == <<"t">>
@@ -71,7 +103,11 @@ B3 == <<T, S("a"), E("a"), T>>
 B4 == <<W, S("a"), T, E("a"), W>>
 Ins(b, i, tok) == SubSeq(b, 1, i - 1) \o <<tok>> \o SubSeq(b, i, Len(b))
 
-PlainQ == <<Elem("stanza", "own", B0), Elem("stanza", "peer", B2), Elem("foreign", "own", B1), Top("ws")>>
+(* continuing items: stanzas from the own bare address, another entity, an address the *)
+(* session does not have (any more); a foreign element; a keep-alive; the local side  *)
+(* closing its output stream                                                          *)
+PlainQ == <<Elem("stanza", "own", B0), Elem("stanza", "peer", B2), Elem("foreign", "own", B1), Top("ws"),
+            Top("lclose"), Elem("stanza", "was", B1)>>
 PlainT == PlainQ \o <<Elem("stanza", "ownfull", B3), Elem("stanza", "none", B4)>>
 Plain == IF Tier = "quick" THEN PlainQ ELSE PlainT
 PrefixIdx == SetToSeq(UNION {[1..n -> 1..Len(Plain)] : n \in 0..(IF Tier = "quick" THEN 2 ELSE 3)})
@@ -95,9 +131,13 @@ Cycles == << <<P8(0, "stop")>>, <<P8(1, "stop")>>, <<P8(1, "ignore")>>, <<P8(2, 
              <<P8(13, "ignore")>>, <<P8(0, "stop"), P8(13, "ignore")>>, <<P8(13, "stop"), P8(1, "ignore")>>,
              <<P8(4, "ignore"), P8(0, "stop"), P8(13, "stop")>> >>
 
-Vec8(items, cyc) ==
-  LET inv == C08_Invocations(items)
-  IN [items |-> items, progs |-> cyc,
+(* every way a session of the two stanza namespaces can get its own address *)
+Setups8 == SetToSeq({s \in AllSess : s.kind # "ws"})
+NS8 == Len(Setups8)
+
+Vec8(items, cyc, s) ==
+  LET inv == C08_Invocations(items, s)
+  IN [sess |-> s, local |-> Local(s), was |-> Was(s), items |-> items, progs |-> cyc,
       inv |-> [i \in 1..Len(inv) |->
                  LET x == C08_Events(inv[i], cyc[((i - 1) % Len(cyc)) + 1])
                  IN [kind |-> inv[i].kind, from |-> inv[i].from, ev |-> x.ev, free |-> x.free,
@@ -112,14 +152,13 @@ V8(lo, hi) == [j \in 1..(hi - lo + 1) |->
        t == Terms[D(i, Len(PrefixIdx), NT) + 1]
        post == Posts[D(i, Len(PrefixIdx) * NT, 2) + 1]
        cyc == Cycles[D(i, Len(PrefixIdx) * NT * 2, Len(Cycles)) + 1]
-   IN Vec8(pre \o (IF t.k = "none" THEN <<>> ELSE <<t>>) \o post, cyc)]
+   IN Vec8(pre \o (IF t.k = "none" THEN <<>> ELSE <<t>>) \o post, cyc, Setups8[((i + Seed) % NS8) + 1])]
 
 ASSUME Which = "c08" =>
-  LET half == NV8 \div 2
-      lo == IF Part = 2 THEN half + 1 ELSE 1
-      hi == IF Part = 1 THEN half ELSE NV8
+  LET lo == SliceLo(NV8)  hi == SliceHi(NV8)
   IN /\ ndJsonSerialize("c08_vectors_" \o ToString(Part) \o ".ndjson", V8(lo, hi))
      /\ PrintT(<<"EMITTED", hi - lo + 1>>)
+     /\ PrintT(<<"SETUPS", NS8>>)
 
 ENext == UNCHANGED <<c7vars, c8vars>>
 =============================================================================
